@@ -49,18 +49,21 @@ def _rows(seed, n):
     return np.array(out), 250, (7.0, 13.0)
 
 def corpus(ctx):
-    return [dict(seed=1, n=3, kw='list', oids=[0, 1, 2], n_jobs=2, progress=None, rs=True, delay='reverse', via='func')]
+    return [dict(seed=1, n=3, kw='list', oids=[0, 1, 2], n_jobs=2, progress=None, rs=True, delay='reverse', via='func'),
+            dict(seed=5, n=3, kw='shared_nested', oids=[], n_jobs=1, progress=None, rs=True, delay='none', via='func')]
 
 def generate(ctx):
     rng = ctx.rng
     cases = []
     for i in range(ctx.scale(36, 300)):
         n = int(rng.integers(2, 7))
-        kwk = str(rng.choice(['none', 'dict', 'list', 'list']))
+        kwk = str(rng.choice(['none', 'dict', 'list', 'list', 'shared_nested']))
         oids = [int(x) for x in rng.integers(0, len(OPTS), size=n)] if kwk == 'list' else ([int(rng.integers(0, len(OPTS)))] if kwk == 'dict' else [])
         cases.append(dict(seed=int(rng.integers(1 << 30)), n=n, kw=kwk, oids=oids, n_jobs=int(rng.choice([1, 2, 3, n + 2, -1])),
                           progress=(None if rng.random() < 0.7 else 'tqdm'), rs=bool(rng.random() < 0.7),
                           delay=str(rng.choice(['reverse', 'random', 'none'])), via=str(rng.choice(['func', 'func', 'object']))))
+        if kwk == 'shared_nested':
+            cases[-1]['via'] = 'func'; cases[-1]['n_jobs'] = int(rng.choice([1, 1, 2]))
     return cases
 
 def _expect(sigs, fs, fr, i, opts, rs):
@@ -74,7 +77,7 @@ def evaluate(ctx, cases):
     from bycycle import BycycleGroup
     reqs = []
     for c in cases:
-        kw = 'None' if c['kw'] == 'none' else ('[one,%d]' % (c['oids'][0] + 1) if c['kw'] == 'dict' else '[many,%s]' % proto.enc_ints([o + 1 for o in c['oids']]))
+        kw = 'None' if c['kw'] == 'none' else ('[one,%d]' % (c['oids'][0] + 1) if c['kw'] == 'dict' else '[many,%s]' % proto.enc_ints([o + 1 for o in c['oids']] if c['kw'] != 'shared_nested' else list(range(1, c['n'] + 1))))
         sg = list(range(c['n']))[::-1] if c['delay'] == 'reverse' else list(np.random.default_rng(c['seed']).permutation(c['n']))
         reqs += ['group2d.model %d %s %s' % (c['n'], kw, proto.enc_ints(sg)), 'group2d.spec %d %s' % (c['n'], kw)]
     ans = proto.run_driver(reqs)
@@ -90,6 +93,9 @@ def evaluate(ctx, cases):
             delays = {float(sigs[i][0]): float(r.choice([0.0, 0.03, 0.06])) for i in range(c['n'])}
         if c['kw'] == 'none': kwv = None
         elif c['kw'] == 'dict': kwv = dict(OPTS[c['oids'][0]])
+        elif c['kw'] == 'shared_nested':
+            shared_bk = {'amp_threshes': (0.5, 1.5)}            # ONE object referenced by every row's option set
+            kwv = [{'burst_method': 'amp', 'burst_kwargs': shared_bk, 'threshold_kwargs': {'burst_fraction_threshold': 0.8, 'min_n_cycles': 1 + 2 * i}} for i in range(c['n'])]
         else: kwv = [dict(OPTS[o]) for o in c['oids']]
         orig = gf.compute_features
         gf.compute_features = DelayedCF(orig, delays)
@@ -128,6 +134,8 @@ def evaluate(ctx, cases):
                 if c['via'] == 'object':
                     opts = dict(OPTS[c['oids'][0]]) if c['kw'] == 'dict' else {'threshold_kwargs': {}}
                     if opts.get('find_extrema_kwargs') is None: opts.pop('find_extrema_kwargs', None)
+                elif c['kw'] == 'shared_nested':
+                    opts = {'burst_method': 'amp', 'burst_kwargs': {'amp_threshes': (0.5, 1.5)}, 'threshold_kwargs': {'burst_fraction_threshold': 0.8, 'min_n_cycles': 1 + 2 * sid}}
                 else:
                     opts = {} if oid == 0 else OPTS[oid - 1]
                 exp = _expect(sigs, fs, fr, sid, opts, c['rs'])
